@@ -20,7 +20,9 @@ Say(tag, prop, clause, o) == PrintT(ToJson(<<tag, prop, clause, o.k, SigOf(o)>>)
 Chk(P, prop, clause, o) == IF P THEN TRUE ELSE Say("VIOL", prop, clause, o)
 
 C03ok(o) == WF(o.pre) => WF(o.post)
-C04u(o)  == (WF(o.pre) /\ UniqueSiblings(o.pre)) => UniqueSiblings(o.post)
+\* observations of the repository's tests (src "test") may start from worlds the test made
+\* ill-formed by poking at private attributes: those are judged only from well-formed worlds
+C04u(o)  == ((o.src = "test" => WF(o.pre)) /\ UniqueSiblings(o.pre)) => UniqueSiblings(o.post)
 C04n(o)  == NamesOK(o.pre) => NamesOK(o.post)
 C06ok(o) == Atomic(o.pre, o.out, o.post)
 Conforms(o) == [out |-> o.out, st |-> Core(o.post)] \in Post(Core(o.pre), o.op)
